@@ -1,2 +1,478 @@
-(* Model for C11 — to be written. Executable definitions only, no proofs. *)
-From WI Require Import Lib.Base Lib.Info.
+(* Model for C11 (shared with C12): OpenPGP packet framing, secret-key packets, signature
+   verification with the exact hash inputs, the packet state machine of ReadEntity /
+   addUserID / addSubkey, and the description built by pgpKey.  Executable, no proofs.
+
+   Go sources (repository worktree):
+     internal/openpgp/packet/packet.go       readLength :41, readHeader :202, Read :356
+     internal/openpgp/packet/reader.go       Reader.Next :22, Unread
+     internal/openpgp/packet/private_key.go  PrivateKey.parse :87, parsePrivateKey
+     internal/openpgp/s2k/s2k.go             Parse :162
+     internal/openpgp/packet/public_key.go   VerifySignature :585, keySignatureHash :683, VerifyKeySignature :699,
+                                             VerifyRevocationSignature :743, userIdSignatureHash :753
+     internal/openpgp/keys.go                ReadEntity :314, addUserID :401, addSubkey :437, shouldReplaceSubkeySig :484
+     internal/file/parsers.go                pgpKey :143
+
+   Cryptography and the other library calls that are not modelled byte for byte are the
+   fields of [params]; the harness records their answers per case (Run/C11.v, Run/C12.v).
+
+   Outside the modelled domain (the model answers Err "unmodelled", observation (9)):
+   partial and indeterminate packet lengths, version-3 keys and signatures, packet types the
+   key reader does not expect (1,3,4,8,9,11,17,18), and key or signature packets whose body is
+   longer than the material parsed from it (packet.Read leaves those octets in a bufio.Reader
+   whose fill level depends on the chunking of the armor reader). *)
+From WI Require Import Lib.Base Lib.Info Lib.Time gen.PgpTables Model.PgpKey.
+Open Scope N_scope.
+
+Record params := mkparams {
+  p_H : bytes -> bytes;                                          (* SHA-1 (fingerprints) *)
+  p_D : N -> bytes -> result bytes;                              (* digest of a message under an OpenPGP hash id *)
+  p_avail : N -> bool;                                           (* crypto.Hash.Available() *)
+  p_prim : pubkey -> N -> bytes -> list bytes -> result bool;    (* rsa.VerifyPKCS1v15 / dsa.Verify / ecdsa.Verify / ed25519.Verify *)
+  p_ecok : bytes -> bytes -> result bool;                        (* elliptic.Unmarshal(curve(oid), point) != nil *)
+  p_rsa_ok : pubkey -> result bool                               (* rsa.PrivateKey.Validate() == nil *)
+}.
+
+Definition miss : string := "oracle miss"%string.
+Definition unmodelled : string := "unmodelled"%string.
+
+(* ---------- packet framing (packet.go:41-251) ---------- *)
+Inductive hdr : Type :=
+| HEof | HErr | HUnmod
+| HPkt (tag : N) (len : N) (rest : bytes).
+
+Definition read_header (l : bytes) : hdr :=
+  match l with
+  | [] => HEof
+  | b :: r =>
+      if b <? 128 then HErr                                   (* tag byte does not have MSB set *)
+      else if N.land b 64 =? 0 then
+        (* old format *)
+        let tag := N.land b 63 / 4 in
+        let lt := N.land b 3 in
+        if lt =? 3 then HUnmod                                (* indeterminate length *)
+        else match read_n (2 ^ lt) r with
+             | None => HErr
+             | Some (lb, rest) => HPkt tag (be_to_N lb) rest
+             end
+      else
+        (* new format, readLength *)
+        let tag := N.land b 63 in
+        match r with
+        | [] => HErr
+        | l0 :: r1 =>
+            if l0 <? 192 then HPkt tag l0 r1
+            else if l0 <? 224 then
+              match r1 with
+              | [] => HErr
+              | l1 :: r2 => HPkt tag ((l0 - 192) * 256 + l1 + 192) r2
+              end
+            else if l0 <? 255 then HUnmod                     (* partial length *)
+            else match read_n 4 r1 with
+                 | None => HErr
+                 | Some (lb, rest) => HPkt tag (be_to_N lb) rest
+                 end
+        end
+  end.
+
+(* ---------- secret-key packets (private_key.go:87-296, s2k.go:162) ---------- *)
+Definition cipher_block_size (c : N) : N :=
+  if (c =? 2) || (c =? 3) then 8 else if (c =? 7) || (c =? 8) || (c =? 9) then 16 else 0.
+
+Definition parse_private (c : cfg) (P : params) (k : pubkey) (l : bytes) : result unit :=
+  let a := pk_algo k in
+  if (a =? 1) || (a =? 2) || (a =? 3) then
+    let* (_, l1) := mpi_read l in
+    let* (_, l2) := mpi_read l1 in
+    let* (_, _) := mpi_read l2 in
+    let* ok := p_rsa_ok P k in
+    if ok then Ok tt else Err "crypto/rsa: invalid private key"
+  else if (a =? 17) || (a =? 16) || (a =? 19) || (a =? 22) then
+    let* (_, _) := mpi_read l in Ok tt
+  else if fix8 c then
+    (if a =? 18 then let* (_, _) := mpi_read l in Ok tt else Err "private key type")
+  else Panic "impossible".
+
+(* [short]: the packet's declared length exceeds the octets that are left (io.ReadAll then fails) *)
+Definition parse_secret_tail (c : cfg) (P : params) (k : pubkey) (short : bool) (l : bytes) : result unit :=
+  match l with
+  | [] => Err "unexpected EOF"
+  | s2k :: r =>
+      if s2k =? 0 then
+        if short then Err "unexpected EOF" else parse_private c P k r
+      else if (s2k =? 254) || (s2k =? 255) then
+        match r with
+        | cipher :: t :: h :: r1 =>
+            if negb (hash_id_ok h) then Err "hash for S2K function"
+            else if negb (p_avail P h) then Err "hash not available"
+            else
+              let* r2 := (if t =? 0 then Ok r1
+                          else if t =? 1 then match read_n 8 r1 with Some (_, x) => Ok x | None => Err "unexpected EOF" end
+                          else if t =? 3 then match read_n 9 r1 with Some (_, x) => Ok x | None => Err "unexpected EOF" end
+                          else Err "S2K function") in
+              let bsz := cipher_block_size cipher in
+              if bsz =? 0 then Err "unsupported cipher in private key"
+              else match read_n bsz r2 with
+                   | None => Err "unexpected EOF"
+                   | Some _ => if short then Err "unexpected EOF" else Ok tt
+                   end
+        | _ => Err "unexpected EOF"
+        end
+      else Err "deprecated s2k function in private key"
+  end.
+
+(* ---------- packets and the reader (packet.go:356, reader.go) ---------- *)
+Inductive packet : Type :=
+| PKey (sub secret : bool) (k : pubkey)
+| PUid (id : bytes)
+| PSig (s : sigp).
+
+Inductive event : Type :=
+| EvP (p : packet)
+| EvErr          (* Reader.Next returned an error other than io.EOF *)
+| EvPanic        (* a run-time panic while parsing the packet *)
+| EvMiss         (* a recorded library answer is missing (harness error) *)
+| EvUnmod.       (* outside the modelled domain *)
+
+Inductive rdres : Type :=
+| RP (p : packet) | RSkip | REof | RErr | RPanic | RMiss | RUnmod.
+
+Definition unmodelled_tag (t : N) : bool :=
+  (t =? 1) || (t =? 3) || (t =? 4) || (t =? 8) || (t =? 9) || (t =? 11) || (t =? 17) || (t =? 18).
+
+Definition rd_of_err (e : string) : rdres :=
+  if String.eqb e miss then RMiss else RErr.
+
+Definition read_packet (c : cfg) (P : params) (tag : N) (body : bytes) (short : bool) : rdres :=
+  if (tag =? 2) || (tag =? 6) || (tag =? 14) then
+    (* peekVersion: an empty body is io.EOF for the Reader when the declared length is 0 *)
+    match body with
+    | [] => if short then RErr else REof
+    | v :: _ =>
+        if v <? 4 then RUnmod
+        else if tag =? 2 then
+          match parse_sig body with
+          | Ok (s, []) => RP (PSig s)
+          | Ok (_, _ :: _) => RUnmod
+          | Err e => rd_of_err e
+          | Panic _ => RPanic
+          end
+        else
+          match parse_public_key c (p_ecok P) body with
+          | Ok (k, []) => RP (PKey (tag =? 14) false k)
+          | Ok (_, _ :: _) => RUnmod
+          | Err e => rd_of_err e
+          | Panic _ => RPanic
+          end
+    end
+  else if (tag =? 5) || (tag =? 7) then
+    match parse_public_key c (p_ecok P) body with
+    | Ok (k, tail) =>
+        match parse_secret_tail c P k short tail with
+        | Ok _ => RP (PKey (tag =? 7) true k)
+        | Err e => rd_of_err e
+        | Panic _ => RPanic
+        end
+    | Err e => rd_of_err e
+    | Panic _ => RPanic
+    end
+  else if tag =? 13 then
+    if short then RErr else RP (PUid body)
+  else if unmodelled_tag tag then RUnmod
+  else RSkip.                                                 (* UnknownPacketTypeError: Reader.Next continues *)
+
+(* the sequence of results of Reader.Next up to and including the first failure;
+   every packet consumes at least its tag octet, so [length l] fuel suffices *)
+Fixpoint events_fuel (fuel : nat) (c : cfg) (P : params) (l : bytes) : list event :=
+  match fuel with
+  | O => []
+  | S f =>
+      match read_header l with
+      | HEof => []
+      | HErr => [EvErr]
+      | HUnmod => [EvUnmod]
+      | HPkt tag len rest =>
+          let short := lenN rest <? len in
+          let n := if short then length rest else N.to_nat len in
+          match read_packet c P tag (take n rest) short with
+          | RP p => EvP p :: events_fuel f c P (drop n rest)
+          | RSkip => events_fuel f c P (drop n rest)
+          | REof => []
+          | RErr => [EvErr]
+          | RPanic => [EvPanic]
+          | RMiss => [EvMiss]
+          | RUnmod => [EvUnmod]
+          end
+      end
+  end.
+Definition events_of (c : cfg) (P : params) (l : bytes) : list event := events_fuel (S (length l)) c P l.
+
+(* ---------- signature verification (public_key.go:585-783) ---------- *)
+Definition uid_hash_input (k : pubkey) (u : bytes) : bytes :=
+  key_hash_input k ++ 180 :: be32 (lenN u) ++ u.
+Definition binding_hash_input (k sk : pubkey) : bytes :=
+  key_hash_input k ++ key_hash_input sk.
+
+(* PublicKey.CanSign :579 (on the key) and PublicKeyAlgorithm.CanSign packet.go:474 (on the algorithm) *)
+Definition pk_can_sign (k : pubkey) : bool := negb ((pk_algo k =? 2) || (pk_algo k =? 16)).
+Definition algo_can_sign (a : N) : bool := mem_N a pgp_can_sign.
+
+Fixpoint strip_zeros (l : bytes) : bytes :=
+  match l with
+  | 0 :: r => strip_zeros r
+  | _ => l
+  end.
+Definition pad_left_to (n : nat) (l : bytes) : bytes := repeat 0 (n - length l) ++ l.
+(* big.Int.SetBytes(b).BitLen(): computed on the octets (equal to bitlen (be_to_N b), Proofs/PgpEntity.v) *)
+Definition bytes_bitlen (b : bytes) : N :=
+  match strip_zeros b with
+  | [] => 0
+  | x :: r => N.size x + 8 * lenN r
+  end.
+(* padToKeySize packet.go:575 *)
+Definition pad_to_key_size (n : mpi) (b : bytes) : bytes :=
+  pad_left_to (N.to_nat ((bytes_bitlen (m_bytes n) + 7) / 8)) b.
+
+Definition tag_match (dg tag : bytes) : bool :=
+  match dg, tag with
+  | a :: b :: _, [x; y] => (a =? x) && (b =? y)
+  | _, _ => false
+  end.
+
+(* the algorithm switch of VerifySignature: which primitive is asked what *)
+Definition crypto_check (c : cfg) (P : params) (k : pubkey) (s : sigcore) (dg : bytes) : result bool :=
+  let a := pk_algo k in
+  if (a =? 1) || (a =? 3) then
+    match pk_mat k, sc_mpis s with
+    | KRSA n _, [sg] => p_prim P k (sc_hash s) dg [pad_to_key_size n (m_bytes sg)]
+    | _, _ => Err "unreachable"
+    end
+  else if a =? 17 then
+    match pk_mat k, sc_mpis s with
+    | KDSA _ q _ _, [r; t] =>
+        let sub := N.to_nat ((bytes_bitlen (m_bytes q) + 7) / 8) in
+        let dg' := if Nat.ltb sub (length dg) then take sub dg else dg in
+        p_prim P k (sc_hash s) dg' [strip_zeros (m_bytes r); strip_zeros (m_bytes t)]
+    | _, _ => Err "unreachable"
+    end
+  else if a =? 19 then
+    match sc_mpis s with
+    | [r; t] => p_prim P k (sc_hash s) dg [strip_zeros (m_bytes r); strip_zeros (m_bytes t)]
+    | _ => Err "unreachable"
+    end
+  else if a =? 22 then
+    match pk_mat k, sc_mpis s with
+    | KEdDSA _ pt, [r; t] =>
+        if negb (lenN (m_bytes pt) =? 33) then Panic "ed25519: bad public key length"
+        else
+          let sg := if fix29 c then pad_left_to 32 (m_bytes r) ++ pad_left_to 32 (m_bytes t)
+                    else m_bytes r ++ m_bytes t in
+          if negb (lenN sg =? 64) then Ok false            (* ed25519.Verify: wrong signature length *)
+          else p_prim P k (sc_hash s) dg [sg]
+    | _, _ => Err "unreachable"
+    end
+  else Ok false.                                           (* Unsupported public key algorithm used in signature *)
+
+(* VerifySignature :585; [prefix] is what was written to the hash before the call *)
+Definition verify_signature (c : cfg) (P : params) (k : pubkey) (prefix : bytes) (s : sigcore) : result unit :=
+  if negb (pk_can_sign k) then Err "public key cannot generate signatures"
+  else
+    let* dg := p_D P (sc_hash s) (prefix ++ suffix s) in
+    if negb (tag_match dg (sc_tag s)) then Err "hash tag doesn't match"
+    else if negb (pk_algo k =? sc_alg s) then Err "public key and signature use different algorithms"
+    else
+      let* ok := crypto_check c P k s dg in
+      if ok then Ok tt else Err "verification failure".
+
+(* VerifyUserIdSignature :777 *)
+Definition verify_uid_sig (c : cfg) (P : params) (k : pubkey) (id : bytes) (s : sigcore) : result unit :=
+  if negb (p_avail P (sc_hash s)) then Err "hash function"
+  else verify_signature c P k (uid_hash_input k id) s.
+
+(* VerifyKeySignature :699 *)
+Definition verify_key_sig (c : cfg) (P : params) (k sk : pubkey) (s : sigp) : result unit :=
+  let core := s_core s in
+  if negb (p_avail P (sc_hash core)) then Err "hash function"
+  else
+    let* _ := verify_signature c P k (binding_hash_input k sk) core in
+    if has_flag (sc_flags core) pgp_flag_sign then
+      match s_emb s with
+      | None => Err "signing subkey is missing cross-signature"
+      | Some e =>
+          if negb (p_avail P (sc_hash e)) then Err "error while hashing for cross-signature"
+          else verify_signature c P sk (binding_hash_input k sk) e
+      end
+    else Ok tt.
+
+(* VerifyRevocationSignature :743 *)
+Definition verify_revocation (c : cfg) (P : params) (k : pubkey) (s : sigcore) : result unit :=
+  if negb (p_avail P (sc_hash s)) then Err "hash function"
+  else verify_signature c P k (key_hash_input k) s.
+
+(* ---------- ReadEntity (keys.go:314-498) ---------- *)
+Record identity := mkid { id_name : bytes; id_self : sigcore; id_others : list sigcore }.
+Record subkey := mksub { sk_key : pubkey; sk_sig : sigcore }.
+Record entity := mkent { e_primary : pubkey; e_ids : list identity; e_subkeys : list subkey; e_revs : list sigcore }.
+
+Inductive mode : Type :=
+| MTop
+| MUid (name : bytes) (self : option sigcore) (others : list sigcore)
+| MSub (k : pubkey) (sg : option sigcore).
+
+Record est := mkest { st_ids : list identity; st_subs : list subkey; st_revs : list sigcore }.
+
+(* e.Identities[pkt.Id] = identity: a Go map, kept here as an association list *)
+Fixpoint put_identity (i : identity) (l : list identity) : list identity :=
+  match l with
+  | [] => [i]
+  | j :: r => if bytes_eqb (id_name j) (id_name i) then i :: r else j :: put_identity i r
+  end.
+
+(* leaving addUserID / addSubkey *)
+Definition close_mode (st : est) (m : mode) : result est :=
+  match m with
+  | MTop => Ok st
+  | MUid name (Some s) others => Ok (mkest (put_identity (mkid name s others) (st_ids st)) (st_subs st) (st_revs st))
+  | MUid _ None _ => Ok st
+  | MSub k (Some s) => Ok (mkest (st_ids st) (st_subs st ++ [mksub k s]) (st_revs st))
+  | MSub _ None => Err "subkey packet not followed by signature"
+  end.
+
+Inductive next : Type := Cont (st : est) (m : mode) | Stop (st : est).
+
+(* one packet in the main loop of ReadEntity :337 *)
+Definition top_step (st : est) (p : packet) : next :=
+  match p with
+  | PUid id => Cont st (MUid id None [])
+  | PSig s =>
+      if sc_type (s_core s) =? pgp_sigtype_key_revocation
+      then Cont (mkest (st_ids st) (st_subs st) (st_revs st ++ [s_core s])) MTop
+      else Cont st MTop
+  | PKey sub _ k => if sub then Cont st (MSub k None) else Stop st     (* Unread; break EachPacket *)
+  end.
+
+Definition is_cert_type (t : N) : bool := (t =? pgp_sigtype_positive_cert) || (t =? pgp_sigtype_generic_cert).
+(* [pid] is e.PrimaryKey.KeyId, set once when the key packet was parsed *)
+Definition is_self_cert (pid : N) (s : sigcore) : bool :=
+  is_cert_type (sc_type s) &&
+  match sc_issuer s with Some i => i =? pid | None => false end.
+
+(* shouldReplaceSubkeySig :484 *)
+Definition should_replace (existing : option sigcore) (new : sigcore) : bool :=
+  match existing with
+  | None => true
+  | Some e => if sc_type e =? pgp_sigtype_subkey_revocation then false else sc_created e <? sc_created new
+  end.
+
+Definition step (c : cfg) (P : params) (primary : pubkey) (pid : N) (st : est) (m : mode) (p : packet) : result next :=
+  match m, p with
+  | MTop, _ => Ok (top_step st p)
+  | MUid name self others, PSig s =>
+      (* addUserID :409 *)
+      let core := s_core s in
+      if is_self_cert pid core then
+        let* _ := verify_uid_sig c P primary name core in
+        Ok (Cont st (MUid name (Some core) others))
+      else Ok (Cont st (MUid name self (others ++ [core])))
+  | MSub k sg, PSig s =>
+      (* addSubkey :442 *)
+      let core := s_core s in
+      let t := sc_type core in
+      if negb ((t =? pgp_sigtype_subkey_binding) || (t =? pgp_sigtype_subkey_revocation))
+      then Err "subkey signature with wrong type"
+      else
+        let* _ := verify_key_sig c P primary k s in
+        if t =? pgp_sigtype_subkey_revocation then Ok (Cont st (MSub k (Some core)))
+        else if should_replace sg core then Ok (Cont st (MSub k (Some core)))
+        else Ok (Cont st (MSub k sg))
+  | _, _ =>
+      (* not a signature: Unread, leave the helper, the main loop sees the packet *)
+      let* st' := close_mode st m in
+      Ok (top_step st' p)
+  end.
+
+Fixpoint verify_revocations (c : cfg) (P : params) (primary : pubkey) (revs : list sigcore) : result unit :=
+  match revs with
+  | [] => Ok tt
+  | r :: rest =>
+      match verify_revocation c P primary r with
+      | Ok _ => verify_revocations c P primary rest
+      | Err e => if String.eqb e miss then Err miss else Err "revocation signature signed by alternate key"
+      | Panic s => Panic s
+      end
+  end.
+
+Definition finish (c : cfg) (P : params) (primary : pubkey) (st : est) : result entity :=
+  match st_ids st with
+  | [] => Err "entity without any identities"
+  | _ =>
+      let* _ := verify_revocations c P primary (st_revs st) in
+      Ok (mkent primary (st_ids st) (st_subs st) (st_revs st))
+  end.
+
+Fixpoint run_packets (c : cfg) (P : params) (primary : pubkey) (pid : N) (st : est) (m : mode) (evs : list event) : result entity :=
+  match evs with
+  | [] => let* st' := close_mode st m in finish c P primary st'
+  | EvErr :: _ => Err "packet error"
+  | EvPanic :: _ => Panic "packet"
+  | EvMiss :: _ => Err miss
+  | EvUnmod :: _ => Err unmodelled
+  | EvP p :: rest =>
+      let* n := step c P primary pid st m p in
+      match n with
+      | Cont st' m' => run_packets c P primary pid st' m' rest
+      | Stop st' => finish c P primary st'
+      end
+  end.
+
+Definition read_entity (c : cfg) (P : params) (evs : list event) : result entity :=
+  match evs with
+  | EvP (PKey _ _ k) :: rest =>
+      if negb (algo_can_sign (pk_algo k)) then Err "primary key cannot be used for signatures"
+      else run_packets c P k (key_id (p_H P) k) (mkest [] [] []) MTop rest
+  | EvP _ :: _ => Err "first packet was not a public/private key"
+  | EvPanic :: _ => Panic "packet"
+  | EvMiss :: _ => Err miss
+  | EvUnmod :: _ => Err unmodelled
+  | EvErr :: _ => Err "packet error"
+  | [] => Err "EOF"
+  end.
+
+(* ---------- pgpKey, parsers.go:143 ---------- *)
+Fixpoint bytes_ltb (a b : bytes) : bool :=       (* Go's < on strings *)
+  match a, b with
+  | [], [] => false
+  | [], _ :: _ => true
+  | _ :: _, [] => false
+  | x :: a', y :: b' => if x <? y then true else if y <? x then false else bytes_ltb a' b'
+  end.
+Fixpoint insert_id (i : identity) (l : list identity) : list identity :=
+  match l with
+  | [] => [i]
+  | j :: r => if bytes_ltb (id_name i) (id_name j) then i :: l else j :: insert_id i r
+  end.
+Definition sort_ids (l : list identity) : list identity := fold_right insert_id [] l.   (* sort.Strings on distinct keys *)
+
+Definition identity_info (c : cfg) (primary : pubkey) (i : identity) : info :=
+  Info (id_name i)
+       (describe_sig c (id_self i) (pk_created primary) ++
+        (if fix38 c then [] else flat_map (fun s => describe_sig c s (pk_created primary)) (id_others i)))
+       [].
+(* parsers.go:175 — the Created attribute is overwritten with the subkey's own creation time *)
+Definition subkey_sig_attrs (c : cfg) (s : subkey) : list (bytes * bytes) :=
+  map (fun nv => if fix39 c && bytes_eqb (fst nv) (bs "Created")
+                 then (fst nv, fmt_date_utc (pk_created (sk_key s))) else nv)
+      (describe_sig c (sk_sig s) (pk_created (sk_key s))).
+Definition subkey_info (c : cfg) (H : bytes -> bytes) (s : subkey) : info :=
+  Info (bs "GPG/PGP subkey")
+       (describe_key H (sk_key s) ++ subkey_sig_attrs c s)
+       [].
+
+Definition entity_info (c : cfg) (H : bytes -> bytes) (private : bool) (e : entity) : info :=
+  Info (if private then bs "GPG/PGP private key" else bs "GPG/PGP public key")
+       (describe_key H (e_primary e))
+       (map (identity_info c (e_primary e)) (sort_ids (e_ids e)) ++ map (subkey_info c H) (e_subkeys e)).
+
+(* PGPPublicKey / PGPPrivateKey on the de-armored packet stream *)
+Definition pgp_key (c : cfg) (P : params) (private : bool) (stream : bytes) : result info :=
+  let* e := read_entity c P (events_of c P stream) in
+  Ok (entity_info c (p_H P) private e).
